@@ -254,6 +254,47 @@ pub fn handle(op: &str, req: &Value) -> Option<Value> {
             let _ = std::fs::remove_dir_all(&dir);
             json!({"role": role_now, "result": format!("{result:?}"), "memory_log": mem_log, "recovered_log": rec, "violates": result.is_ok() && rec != mem_log})
         },
+        "raft_snapshot_install_restart" => {
+            // a leader builds a snapshot of k finalized entries; a follower with a WAL (holding `own` older entries) installs
+            // it; the follower's log is then rebuilt from its WAL file alone
+            use tensor_chain::raft_wal::{RaftRecoveryState, RaftWal};
+            let k = req["entries"].as_u64().unwrap_or(2).max(1);
+            let own = req["own"].as_u64().unwrap_or(0);
+            let dir = std::env::var("VERIF_BUILD").unwrap_or_else(|_| "/verif/.build".into());
+            let dir = std::path::PathBuf::from(dir).join("replay-tmp").join(format!("i{}-{}", std::process::id(),
+                std::time::SystemTime::now().duration_since(std::time::UNIX_EPOCH).map(|d| d.as_nanos()).unwrap_or(0)));
+            let _ = std::fs::create_dir_all(&dir);
+            let mk_cfg = || { let mut c = RaftConfig::default(); c.enable_fast_path = false; c.auto_heartbeat = false; c };
+            // leader: single node, proposes k entries, finalizes them, snapshots
+            let lt: Arc<MemoryTransport> = Arc::new(MemoryTransport::new("l".to_string()));
+            let leader = RaftNode::new("l".to_string(), vec!["x".into()], lt, mk_cfg());
+            {
+                // the source node learns k committed entries the ordinary way
+                let ents: Vec<LogEntry> = (1..=k).map(|i| LogEntry::new(2, i, Block::default())).collect();
+                let ae = AppendEntries { term: 2, leader_id: "x".into(), prev_log_index: 0, prev_log_term: 0, entries: ents, leader_commit: k, block_embedding: None };
+                let _ = leader.handle_message(&"x".to_string(), &Message::AppendEntries(ae));
+            }
+            let _ = leader.finalize_to(k);
+            let (meta, data) = match leader.create_snapshot() { Ok(x) => x, Err(e) => return Some(json!({"error": format!("create_snapshot: {e}")})) };
+            let wal_path = dir.join("f.wal");
+            let (mem_log, res);
+            {
+                let ft: Arc<MemoryTransport> = Arc::new(MemoryTransport::new("f".to_string()));
+                let f = match RaftNode::with_wal("f".to_string(), vec!["l".into()], ft, mk_cfg(), &wal_path) { Ok(n) => n, Err(e) => return Some(json!({"error": e.to_string()})) };
+                if own > 0 {
+                    let ents: Vec<LogEntry> = (1..=own).map(|i| LogEntry::new(1, i, Block::default())).collect();
+                    let ae = AppendEntries { term: 1, leader_id: "l".into(), prev_log_index: 0, prev_log_term: 0, entries: ents, leader_commit: 0, block_embedding: None };
+                    let _ = f.handle_message(&"l".to_string(), &Message::AppendEntries(ae));
+                }
+                res = f.install_snapshot(meta.clone(), &data).map_err(|e| e.to_string());
+                mem_log = f.verif_log_and_vote().0;
+            }
+            let rec: Vec<(u64, u64)> = RaftWal::open(&wal_path).ok().and_then(|w| RaftRecoveryState::from_wal(&w).ok()).map(|s| {
+                s.recovered_log.iter().filter_map(|b| bitcode_entry(b)).collect()
+            }).unwrap_or_default();
+            let _ = std::fs::remove_dir_all(&dir);
+            json!({"install": format!("{res:?}"), "snapshot_index": meta.last_included_index, "memory_log": mem_log, "recovered_log": rec, "violates": res.is_ok() && rec != mem_log})
+        },
         "raft_node_restart" => {
             // node backed by a real WAL that already holds its (term, vote); one handler call; restart; compare
             use tensor_chain::raft_wal::{RaftRecoveryState, RaftWal, RaftWalEntry};
